@@ -11,6 +11,61 @@ from collections import Counter
 from . import core, env
 
 
+def _child(task, conn):
+    """one task = one process: a task that takes its process down (killed for memory, a crash in native code) costs that task only"""
+    try:
+        import resource
+
+        gb = float(os.environ.get("VERIF_MEM_GB", "4"))
+        from . import registry
+
+        if gb > 0 and registry.get_sub(task[0], task[1]).kind != "fuzz":
+            # a runaway allocation (a count or an offset read from the wrong place) becomes a MemoryError inside the code under test
+            # - reported like any other unexpected exception - instead of an out-of-memory kill of the whole run
+            soft = int(gb * 2 ** 30)
+            resource.setrlimit(resource.RLIMIT_AS, (soft, resource.getrlimit(resource.RLIMIT_AS)[1]))
+    except Exception:  # noqa - without the limit the task still runs
+        pass
+    try:
+        conn.send(core.run_task(task))
+    finally:
+        conn.close()
+
+
+def run_parallel(tasks, workers):
+    from multiprocessing.connection import wait
+
+    ctxm = multiprocessing.get_context("fork")
+    results = [None] * len(tasks)
+    pending = list(range(len(tasks)))
+    running = {}
+    while pending or running:
+        while pending and len(running) < workers:
+            i = pending.pop(0)
+            parent, child = ctxm.Pipe(duplex=False)
+            p = ctxm.Process(target=_child, args=(tasks[i], child))
+            p.start()
+            child.close()
+            running[i] = (p, parent)
+        ready = wait([c for _, c in running.values()], timeout=5.0)
+        for i, (p, c) in list(running.items()):
+            if c not in ready:
+                continue
+            try:
+                results[i] = c.recv()
+            except (EOFError, OSError):
+                p.join(10)
+                prop, subname, tier, seed_, shard, nshards, known, deadline = tasks[i]
+                r = core.Ctx(prop, subname, tier, seed_, shard, nshards, known, deadline).result()
+                r["error"] = (f"the worker process of {subname}[{shard}] ended without a result (exit code {p.exitcode}: "
+                              f"{'killed by signal ' + str(-p.exitcode) if (p.exitcode or 0) < 0 else 'exited'}) - out of memory or a crash in native code")
+                results[i] = r
+            p.join(10)
+            c.close()
+            del running[i]
+    return results
+
+
 def main(argv=None):
     try:
         import signal
@@ -114,9 +169,7 @@ def main(argv=None):
             tasks.append((prop, s.name, args.tier, seed, shard, ns, tuple(known_keys), deadline))
     # longest first is unknowable; interleave so shards of one sub-check spread out
     if workers > 1 and len(tasks) > 1:
-        ctxm = multiprocessing.get_context("fork")
-        with ctxm.Pool(min(workers, len(tasks)), maxtasksperchild=None) as pool:
-            results = pool.map(core.run_task, tasks, chunksize=1)
+        results = run_parallel(tasks, min(workers, len(tasks)))
     else:
         results = [core.run_task(t) for t in tasks]
 
@@ -217,7 +270,9 @@ def main(argv=None):
     if harness_errors:
         for h in harness_errors:
             print("HARNESS-ERROR " + h)
-        return core.EXIT_HARNESS
+        if not violations:
+            return core.EXIT_HARNESS
+        # a violation established by another task stands on its own (its replay file reproduces it); the tasks that broke are reported above
     vacuous = [n for n, m in per_sub.items()
                if registry.get_sub(prop, n).nontrivial_required and not m["nontrivial"]
                and not m["skipped_for_time"] and not m["violations"]]
